@@ -382,3 +382,25 @@ Theorem c17_ok_iff ops observed : c17_ok ops observed = true <-> observed = spec
 Proof.
   unfold c17_ok. rewrite (list_eqb_spec out_eqb out_eqb_spec). split; congruence.
 Qed.
+(* A pending entry kept by export-and-reset, once its response arrives, is
+   listed (with that response) by the next export and handed out by the next
+   export-and-reset. *)
+Lemma pending_completed_later t l e r :
+  In e l -> eresp e = None ->
+  let l1 := fst (spec_step t l ExportReset) in
+  let l2 := fst (spec_step (S t) l1 (RecResp (eid e) r)) in
+  snd (spec_step (S (S t)) l2 Export) = OList (map obs_entry l2)
+  /\ In (eid e, Some r) (map obs_entry l2)
+  /\ In (eid e, Some r) (map obs_entry (filter completed l2))
+  /\ snd (spec_step (S (S t)) l2 ExportReset) = OList (map obs_entry (filter completed l2)).
+Proof.
+  intros Hin Hp l1 l2.
+  assert (In e l1) as H1 by (apply pending_survives; assumption).
+  assert (In (mkEntry (eid e) (Some r) (etag e)) l2) as H2.
+  { subst l2. cbn [spec_step fst]. unfold set_resp.
+    apply in_map_iff. exists e. split; [|exact H1]. rewrite N.eqb_refl. reflexivity. }
+  split; [reflexivity|]. split; [|split; [|reflexivity]].
+  - apply in_map_iff. exists (mkEntry (eid e) (Some r) (etag e)). split; [reflexivity|exact H2].
+  - apply in_map_iff. exists (mkEntry (eid e) (Some r) (etag e)). split; [reflexivity|].
+    apply filter_In. split; [exact H2|reflexivity].
+Qed.
